@@ -235,6 +235,9 @@ def run(chk):
                 "chunks x run/type mismatch flags for concatenate and merge; every 0..2-run annotation x split time; every "
                 "chunking of a run x target size for the rechunker. non-trivial = a split that moves rows, is refused or is moved early")
     chk.exhaustive = True
+    # compile numba functions once in the parent so that forked workers inherit them
+    check_split_case(dict(c=dict(s=0, e=3, rows=[[0, 1], [1, 3]]), sp={"1": {"0": [1, 1, 1, 1, 1], "1": [1, 1, 1, 1, 1]}}, t0=0))
+    rechunk_run([dict(s=0, e=3, rows=[[0, 1]])], 1)
     for sc_ in scopes:
         r, cases = V.tlc_cases("ChunksCases", sc_, ["Laws", "Emit"], timeout=3000)
         chk.add_tlc(r, f"ChunksCases {sc_}")
